@@ -175,17 +175,22 @@ impl Snapshot {
 	/// This is a helper method used by both iterators and optimized operations
 	/// like count
 	pub(crate) fn collect_iter_state(&self) -> Result<IterState> {
-		let active = guardian::ArcRwLockReadGuardian::take(Arc::clone(&self.core.active_memtable))?;
+		Self::collect_iter_state_from(&self.core)
+	}
+
+	/// Same as `collect_iter_state`, without needing a `Snapshot` value (whose
+	/// `Drop` unregisters its sequence number from the snapshot tracker).
+	pub(crate) fn collect_iter_state_from(core: &Arc<Core>) -> Result<IterState> {
+		let active = guardian::ArcRwLockReadGuardian::take(Arc::clone(&core.active_memtable))?;
 		let immutable =
-			guardian::ArcRwLockReadGuardian::take(Arc::clone(&self.core.immutable_memtables))?;
-		let manifest =
-			guardian::ArcRwLockReadGuardian::take(Arc::clone(&self.core.level_manifest))?;
+			guardian::ArcRwLockReadGuardian::take(Arc::clone(&core.immutable_memtables))?;
+		let manifest = guardian::ArcRwLockReadGuardian::take(Arc::clone(&core.level_manifest))?;
 
 		Ok(IterState {
 			active: active.clone(),
 			immutable: immutable.iter().map(|entry| Arc::clone(&entry.memtable)).collect(),
 			levels: manifest.levels.clone(),
-			versioned_index: self.core.versioned_index.clone(),
+			versioned_index: core.versioned_index.clone(),
 		})
 	}
 
@@ -939,12 +944,10 @@ pub(crate) struct SnapshotIterator<'a> {
 impl SnapshotIterator<'_> {
 	/// Creates a new iterator over a specific key range
 	fn new_from(core: Arc<Core>, seq_num: u64, range: InternalKeyRange) -> Result<Self> {
-		// Create a temporary snapshot to use the helper method
-		let snapshot = Snapshot {
-			core: Arc::clone(&core),
-			seq_num,
-		};
-		let iter_state = snapshot.collect_iter_state()?;
+		// Do not build a temporary `Snapshot` here: dropping it would unregister
+		// `seq_num` from the snapshot tracker while the owning transaction is
+		// still open.
+		let iter_state = Snapshot::collect_iter_state_from(&core)?;
 
 		let merge_iter = KMergeIterator::new_from(iter_state, range);
 
